@@ -33,11 +33,18 @@ def run(rep, tier, seed):
         os.remove(out)
         if not any(e["same"] for e in c12.G["SH"]) or all(e["same"] for e in c12.G["SH"]):
             raise MachineryError("vacuous shapes")
-        for n, outl, np_ in parallel(c12.w_shapes, range(len(c12.G["SH"]))):
-            shapes += n
-            npairs += np_
-            for key, det, replay in outl:
-                rep.violation(f"{pid}:{key}", det[:500], replay)
+        realisations = [c12.G["SH_text_of"]]
+        if "Texts" in cfg:
+            # a second realisation of the seven text atoms: strings that are canonically EQUIVALENT (NFC / NFD spellings,
+            # Angstrom sign / A-ring, Kelvin sign) yet different strings - equal means identical
+            realisations.append({0: None, 1: "Jos\u00e9", 2: "", 3: "Jose\u0301", 4: "\u212b", 5: "\u00c5", 6: "A\u030a"}.get)
+        for tof in realisations:
+            c12.G["SH_text_of"] = tof
+            for n, outl, np_ in parallel(c12.w_shapes, range(len(c12.G["SH"]))):
+                shapes += n
+                npairs += np_
+                for key, det, replay in outl:
+                    rep.violation(f"{pid}:{key}", det[:500], replay)
     rep.notes["shape_pairs_compared"] = shapes
     # large instances: deep chains / wide fans, compared with their copy before and after one edit at the far end (TLC: TreeEq)
     from harness.common import judge_traces
